@@ -202,6 +202,30 @@ example : (attrOne ⟨0, L 1, .bool, false, .expr (.num (L 2))⟩).errs = [⟨L 
     (attrOne ⟨0, L 1, .intConst, false, .expr (.bin (L 2) .add (.num (L 3)) (.num (L 4)))⟩).errs = [] := by
   decide
 
+/-- Attribute constancy: an accepted value of a constant-demanding attribute (`[is_signed]`,
+`[is_integer]`, `[addressable_unit_size]`, `[maximum_bits]`, `[fixed_size_in_bits]`) mentions
+no field, parameter or builtin — not in any sub-expression, nor inside the definition of any
+`let` field it refers to, in whatever module. -/
+theorem C13_constant_attr_mentions_no_field (a : Attr) (e : Expr)
+    (ht : Typed (a.file, e)) (hv : a.val = .expr e) (hk : a.kind = .boolConst ∨ a.kind = .intConst)
+    (hok : (attrOne a).errs = [] ∧ (attrOne a).crash = none) :
+    ∀ p ∈ parts a.file e, (∀ l t, p.2 ≠ .lphys l t) ∧ (∀ l t, p.2 ≠ .lparam l t) ∧
+      (∀ l, p.2 ≠ .lparamArr l) ∧ (∀ l b, p.2 ≠ .builtin l b) := by
+  have h := (attrOne_ok a (fun e' he' => by rw [hv] at he'; cases he'; exact ht)).1 hok
+  have hc : closed e = true := by
+    unfold AttrOk at h
+    rcases hk with hk | hk <;> rw [hk, hv] at h <;> exact h.2
+  intro p hp
+  exact closed_not_ref (parts_closed e a.file hc p hp)
+
+/-- non-vacuity: `[fixed_size_in_bits: 8 + 8]` is accepted; `[fixed_size_in_bits: x]` and
+`[is_integer: $is_statically_sized]` are reported as not constant. -/
+example :
+    (attrOne ⟨0, L 1, .intConst, false, .expr (.bin (L 2) .add (.num (L 3)) (.num (L 4)))⟩).errs = [] ∧
+    (attrOne ⟨0, L 1, .intConst, false, .expr (.lphys (L 2) .int)⟩).errs = [⟨L 1, 0, .attrConst, []⟩] ∧
+    (attrOne ⟨0, L 1, .boolConst, false, .expr (.builtin (L 2) .isStaticallySized)⟩).errs
+      = [⟨L 1, 0, .attrConstBool, []⟩] := by decide
+
 /-! ### The pipeline (`annotate_types`, `check_types`, attribute validators) -/
 
 /-- what the three passes demand of a module, as coded -/
